@@ -84,3 +84,11 @@ def _compute_multi_point_features("""),
     dict(prop="C05", name="point features: bandwidth term replaced by duration term", file=GF, old="        Feature(term=terms.bandwidth, value=0),", new="        Feature(term=terms.duration, value=0),"),
     dict(prop="C05", name="feature table: Point -> line string function", file=GF, old="    geometries.Point.geom_type(): _compute_point_features,", new="    geometries.Point.geom_type(): _compute_line_string_features,"),
 ]
+MUTANTS += [
+    dict(prop="C11", name="interval start not clamped at 0", file=GO, old="    start_time, end_time = geometry.coordinates\n    start_time = max(start_time - time_buffer, 0)", new="    start_time, end_time = geometry.coordinates\n    start_time = start_time - time_buffer"),
+    dict(prop="C11", name="box high freq not capped", file=GO, old="    high_freq = min(high_freq + freq_buffer, data.MAX_FREQUENCY)", new="    high_freq = high_freq + freq_buffer"),
+    dict(prop="C11", name="box low freq uses time buffer", file=GO, old="    low_freq = max(low_freq - freq_buffer, 0)", new="    low_freq = max(low_freq - time_buffer, 0)"),
+    dict(prop="C11", name="negative freq buffer accepted", file=GO, old="    if time_buffer < 0 or freq_buffer < 0:", new="    if time_buffer < 0:"),
+    dict(prop="C11", name="TimeInterval dispatched to timestamp buffer", file=GO, old="    if geometry.type == \"TimeInterval\":\n        return buffer_interval(", new="    if geometry.type == \"TimeInterval\":\n        return buffer_timestamp("),
+    dict(prop="C11", name="timestamp end shrinks", file=GO, old="    end_time = time + time_buffer", new="    end_time = time + time_buffer / 2"),
+]
